@@ -218,6 +218,12 @@ impl SimHooks for Hooks {
         }
     }
 
+    fn before_send(&self) {
+        // exact count of undelivered channel messages: incremented before the message exists
+        let mut g = self.0.lock();
+        g.pending += 1;
+    }
+
     fn before_join(&self) {
         let mut g = self.0.lock();
         g.m = MState::Joining;
